@@ -301,12 +301,45 @@ impl Obs {
     }
 }
 
+/// Waker handed to ONE future instance. It forwards to the task's waker while that instance is
+/// alive; once the instance has been dropped (completed or cancelled) it is inert, exactly like
+/// the waker of a `select!` branch or of another task that no longer waits. Code that keeps the
+/// waker of a dropped future instead of the one from the latest poll therefore loses the wakeup.
+pub struct InstanceWaker {
+    inner: std::task::Waker,
+    alive: std::sync::atomic::AtomicBool,
+}
+
+pub static STALE_INSTANCE_WAKES: std::sync::atomic::AtomicU64 = std::sync::atomic::AtomicU64::new(0);
+
+impl std::task::Wake for InstanceWaker {
+    fn wake(self: std::sync::Arc<Self>) {
+        self.wake_by_ref()
+    }
+    fn wake_by_ref(self: &std::sync::Arc<Self>) {
+        if self.alive.load(std::sync::atomic::Ordering::SeqCst) {
+            self.inner.wake_by_ref();
+        } else {
+            STALE_INSTANCE_WAKES.fetch_add(1, std::sync::atomic::Ordering::Relaxed);
+        }
+    }
+}
+
 /// Polls the inner future; implements the cancellation plan. Output None = "cancel now".
 pub struct PollN<'a, F> {
     pub f: Pin<&'a mut F>,
     pub plan: Option<(u32, Mode)>,
     pub done: u32,
     pub polls: &'a mut u32,
+    pub iw: Option<std::sync::Arc<InstanceWaker>>,
+}
+
+impl<F> Drop for PollN<'_, F> {
+    fn drop(&mut self) {
+        if let Some(w) = &self.iw {
+            w.alive.store(false, std::sync::atomic::Ordering::SeqCst);
+        }
+    }
 }
 
 impl<F: Future> Future for PollN<'_, F> {
@@ -318,7 +351,13 @@ impl<F: Future> Future for PollN<'_, F> {
                 return Poll::Ready(None);
             }
         }
-        match this.f.as_mut().poll(cx) {
+        let iw = this
+            .iw
+            .get_or_insert_with(|| std::sync::Arc::new(InstanceWaker { inner: cx.waker().clone(), alive: std::sync::atomic::AtomicBool::new(true) }))
+            .clone();
+        let w = std::task::Waker::from(iw);
+        let mut icx = Context::from_waker(&w);
+        match this.f.as_mut().poll(&mut icx) {
             Poll::Ready(v) => Poll::Ready(Some(v)),
             Poll::Pending => {
                 this.done += 1;
@@ -343,7 +382,7 @@ macro_rules! op {
             let __r = {
                 let __f = $mk;
                 let mut __f = std::pin::pin!(__f);
-                $crate::scen::PollN { f: __f.as_mut(), plan: __plan.take(), done: 0, polls: &mut __polls }.await
+                $crate::scen::PollN { f: __f.as_mut(), plan: __plan.take(), done: 0, polls: &mut __polls, iw: None }.await
             };
             match __r {
                 Some(v) => {
@@ -366,7 +405,7 @@ macro_rules! aw {
         let mut __polls = 0u32;
         let __f = $f;
         let mut __f = std::pin::pin!(__f);
-        let v = $crate::scen::PollN { f: __f.as_mut(), plan: None, done: 0, polls: &mut __polls }.await.unwrap();
+        let v = $crate::scen::PollN { f: __f.as_mut(), plan: None, done: 0, polls: &mut __polls, iw: None }.await.unwrap();
         $o.leave($site, __occ, __polls);
         v
     }};
@@ -506,7 +545,7 @@ async fn s1_client(o: Arc<Obs>, ep: Endpoint, cc: ClientConfig, saddr: SocketAdd
                     let r = {
                         let f = s.as_mut().unwrap().write(&data[off..end]);
                         let mut f = std::pin::pin!(f);
-                        PollN { f: f.as_mut(), plan: Some((1, Mode::Now)), done: 0, polls: &mut polls }.await
+                        PollN { f: f.as_mut(), plan: Some((1, Mode::Now)), done: 0, polls: &mut polls, iw: None }.await
                     };
                     match r {
                         Some(Ok(n)) => {
@@ -666,7 +705,7 @@ async fn s1_server_conn(o: Arc<Obs>, inc: Incoming, ep: Endpoint) {
                         let res = {
                             let f = r.read(&mut buf);
                             let mut f = std::pin::pin!(f);
-                            PollN { f: f.as_mut(), plan: Some((1, Mode::Now)), done: 0, polls: &mut polls }.await
+                            PollN { f: f.as_mut(), plan: Some((1, Mode::Now)), done: 0, polls: &mut polls, iw: None }.await
                         };
                         match res {
                             None => {
